@@ -278,6 +278,17 @@ fn check_aint(s: f64, e: f64, thetas: &[f64], fracs: &[f64]) -> Verdict {
     for t in thetas {
         probes.push((*t, model_contains(start, ext, *t, band + 2e-15 * t.abs())));
     }
+    // an angle that is the interval's start exactly - the same remainder modulo the f64 value of 2pi, so no rounding is
+    // involved in comparing the two - is a member however many whole turns away it was written (0 and 2pi, s and
+    // s +- 2pi); the don't-care band of the model does not apply to it
+    if e >= 0.0 {
+        for t in [s, s + TAU, s - TAU, s + 2.0 * TAU, TAU, -TAU, 2.0 * TAU, 0.0] {
+            if t.is_finite() && (t % TAU) == (s % TAU) {
+                probes.push((t, Some(true)));
+                cx.label("start_exactly");
+            }
+        }
+    }
     let mut decided = 0;
     for (t, exp) in probes {
         let got = iv.contains(t);
